@@ -95,6 +95,53 @@ def vkey(prop, o):
     return "%s/%s/%s" % (prop, o["rule"], o["instance"])
 
 
+def evaluate(prop, F, tier="quick", seed=0, digest="", fresh=False, G=None):
+    """Run the property's rule table on the plain fact base; rules that report violations are re-evaluated on the inlined
+    view (corrolint/inline.py: private helper fns inlined into their callers).  Both views describe the same program and a
+    rule is sound on either, so a rule counts as violated only if it is violated on both; the obligations reported for it
+    are then those of the inlined view (the ones that survive helper extraction).  Returns the Ctx holding the merged rules."""
+    mod = importlib.import_module("rules." + prop)
+    G = G or gx.Graph(F)
+    ctx = Ctx(prop, F, G, tier, seed, digest, fresh)
+    mod.run(ctx)
+    failing = [r for r in ctx.rules if any(not o["ok"] for o in r.obligations)]
+    if not failing:
+        return ctx
+    from . import inline
+    V = inline.inlined_view(F)
+    if not V.inlined["helpers"]:
+        return ctx
+    VG = getattr(V, "_graph", None)
+    if VG is None:
+        VG = gx.Graph(V)
+        V._graph = VG
+    vctx = Ctx(prop, V, VG, tier, seed, digest, fresh)
+    try:
+        mod.run(vctx)
+    except Exception:
+        ctx.notes.append({"inlined_view": "rule engine crashed on the inlined view; plain-view verdict kept", "trace": traceback.format_exc()[-600:]})
+        return ctx
+    by_id = {}
+    for r in vctx.rules:
+        by_id.setdefault(r.id, r)
+    cleared, confirmed = [], []
+    for r in failing:
+        r2 = by_id.get(r.id)
+        if r2 is None or not r2.obligations:
+            continue
+        plain_fail = [o["instance"] for o in r.obligations if not o["ok"]]
+        for o in r2.obligations:
+            o["view"] = "inlined"
+        if any(not o["ok"] for o in r2.obligations):
+            confirmed.append(r.id)
+        else:
+            cleared.append({"rule": r.id, "plain_view_artefacts": plain_fail[:6]})
+        r.obligations = r2.obligations
+    ctx.notes.append({"inlined_view": {"helpers_inlined": len(V.inlined["helpers"]), "absorbed": V.inlined["absorbed"][:20],
+                                       "rules_cleared_on_inlined_view": cleared, "rules_violated_on_both_views": confirmed}})
+    return ctx
+
+
 def run_property(prop, tier="quick", seed=0, no_cache=False, repo=None, facts_dir=None, write_evidence=True,
                  out=sys.stdout):
     t0 = time.time()
@@ -107,11 +154,9 @@ def run_property(prop, tier="quick", seed=0, no_cache=False, repo=None, facts_di
     except ex.Broken as e:
         print("CHECK-BROKEN: %s" % e, file=out)
         return 2
-    G = gx.Graph(F)
-    ctx = Ctx(prop, F, G, tier, seed, digest, fresh)
     try:
         mod = importlib.import_module("rules." + prop)
-        mod.run(ctx)
+        ctx = evaluate(prop, F, tier, seed, digest, fresh)
         # engine-level positive controls (every property): each analysis primitive must separate bad_* from good_* fixtures
         cfacts = controls_facts()
         if cfacts is None:
@@ -141,6 +186,7 @@ def run_property(prop, tier="quick", seed=0, no_cache=False, repo=None, facts_di
         return 2
 
     known = {k["key"]: k for k in load_known() if k.get("property") == prop and k.get("status") == "known"}
+    F, G = ctx.F, ctx.G
     obligations = [o for r in ctx.rules for o in r.obligations]
     violations, known_hits = [], []
     for o in obligations:
@@ -271,9 +317,7 @@ def mutant_selftest(prop, out=sys.stdout):
                 continue
             facts_dir, digest, fresh, ext_s = ex.extract(scratch)
             F = fx.load(facts_dir)
-            ctx = Ctx(prop, F, gx.Graph(F), "thorough", 0, digest, fresh)
-            mod = importlib.import_module("rules." + prop)
-            mod.run(ctx)
+            ctx = evaluate(prop, F, "thorough", 0, digest, fresh)
             viol = [o for r_ in ctx.rules for o in r_.obligations if not o["ok"]]
             results.append({"seed": name, "status": "detected" if viol else "MISSED", "violations": [vkey(prop, o) for o in viol][:5]})
         except ex.Broken as e:
@@ -316,8 +360,7 @@ def explain(prop, replay_path, repo=None, out=sys.stdout):
     except ex.Broken as e:
         print("CHECK-BROKEN: %s" % e, file=out)
         return 2
-    ctx = Ctx(prop, F, gx.Graph(F), "quick", 0, digest, fresh)
-    importlib.import_module("rules." + prop).run(ctx)
+    ctx = evaluate(prop, F, "quick", 0, digest, fresh)
     hits = [o for r in ctx.rules for o in r.obligations if vkey(prop, o) == rp.get("key")]
     print("replay key : %s" % rp.get("key"), file=out)
     print("recorded   : %s @ %s" % (rp.get("message"), rp.get("where")), file=out)
